@@ -81,7 +81,9 @@ class C02(object):
                          'retry_after_failed_solve.cases',
                          'hostile.derived_only_nan.cases',
                          'steady_state_option_then_shock.cases',
-                         'malformed_line.judged')
+                         'malformed_line.judged',
+                         'solver_reused_after_coarser_block.this_block_leaves_accuracy_to_the_default',
+                         'mirror_image_alias_as_power_base.cases')
 
     def n_cases(self, tier):
         return 400 if tier == 'quick' else 40000
@@ -186,9 +188,29 @@ class C02(object):
             # a user function (Lipschitz 0.1) used by the first equation; a rival solver registers the same name
             userfn = spec['simul'][0]['name']
             spec['simul'][0]['nl'] = ((spec['simul'][0]['nl'] + ' + ') if spec['simul'][0]['nl'] else '') + 'uf(%s)' % userfn
-        return {'kind': 'system', 'spec': spec, 'text': G.render(spec), 'tol': tol, 'earlier': earlier, 'userfn': userfn,
-                'tol_via': 'line' if spec['tol'] is not None else 'param',
-                'reduction': rng.random() < 0.6, 'trace': rng.choice([None, None, 1, spec['maxtime']]),
+        text_ = G.render(spec)
+        tol_via_ = 'line' if spec['tol'] is not None else 'param'
+        forced_reduction = None
+        if idx % 20 == 18 and not zero_tol:
+            # this block leaves the accuracy to the default (no Err_Tolerance line, nothing set on the solver); the same solver
+            # object has just solved another block that asked for a coarse accuracy on its own line
+            import copy as _copy2
+            spec['tol'] = None
+            text_ = G.render(spec)
+            var2 = _copy2.deepcopy(spec)
+            for sm in var2['simul']:
+                sm['const'] = sm['const'] * 0.5 + 1.0
+            var2['tol'] = rng.choice([0.05, 0.01])
+            earlier = G.render(var2)
+            tol, tol_via_ = None, 'default'
+        if idx % 20 == 3:
+            # a mirror image of a simultaneous variable (x = -y), used as the base of a power and in a product
+            x0_ = spec['simul'][0]['name']
+            text_ = 'mir_a = -%s\nmir_sq = 0.001*mir_a**2 + mir_a\nmir_pr = 2*-mir_a*mir_a\n' % x0_ + text_
+            forced_reduction = True
+        return {'kind': 'system', 'spec': spec, 'text': text_, 'tol': tol, 'earlier': earlier, 'userfn': userfn,
+                'tol_via': tol_via_, 'mirror_alias': idx % 20 == 3,
+                'reduction': forced_reduction if forced_reduction is not None else rng.random() < 0.6, 'trace': rng.choice([None, None, 1, spec['maxtime']]),
                 'cap': rng.choice([5000, 5000, 5000, 400, 60, 10, 1]),
                 # how the job is submitted: ParseString + SolveEquation, the text given to the constructor, or the
                 # public pieces called one by one (ExtractVariableList, SetInitialConditions, SolveStep per period)
@@ -268,6 +290,10 @@ class C02(object):
                 counters['solver_reused_for_variant.cases'] = 1
                 if case['tol_via'] == 'line':
                     counters['solver_reused_after_coarser_block.cases'] = 1
+                if case['tol_via'] == 'default':
+                    counters['solver_reused_after_coarser_block.this_block_leaves_accuracy_to_the_default'] = 1
+            if case.get('mirror_alias'):
+                counters['mirror_image_alias_as_power_base.cases'] = 1
         elif kind in ('hostile', 'userfn'):
             solver.MaxIterations = case['cap']
             if case.get('tol') is not None:
